@@ -331,6 +331,8 @@ def inject(scratch):
     return json.load(open(rep))
 
 
+FIELD_SENS = ["--max-field-sensitivity-array-size", "256"]
+
 UNDECIDED_DESCR = ("unwinding assertion", "recursion unwinding assertion")
 
 
@@ -350,6 +352,9 @@ def fq(h):
     if "::" in h:
         return h
     mod = h.split("_")[0]
+    if mod.startswith("in"):
+        # harness of a private-function module: in_<module>.rs mounted at crate::<module>::verif_in
+        return "%s::verif_in::%s" % ({"inp": "parse", "ind": "dlt", "inr": "read", "ins": "statistics"}[mod], h)
     mod = {"c03": "c04", "c05": "c04"}.get(mod, mod)
     return "verif_kani::%s::%s" % (mod, h)
 
@@ -370,8 +375,10 @@ def run_kani_group(prop_id, scratch, harnesses, features=None, cbmc_args=None, j
     for h in harnesses:
         cmd += ["--harness", fq(h)]
     cmd += ["--exact"]
-    if cbmc_args:
-        cmd += ["--cbmc-args"] + cbmc_args
+    # CBMC's field-sensitivity limit (default 64 array cells) decides whether byte buffers are
+    # tracked cell by cell; above it every buffer access becomes an array-theory term and the
+    # harnesses do not finish (measured). Semantics are unchanged by this option.
+    cmd += ["--cbmc-args"] + FIELD_SENS + list(cbmc_args or [])
     shown = " ".join(cmd).replace(out_json, "<out>.json")
     t0 = time.time()
     # memory guard: RLIMIT_AS per process
@@ -453,7 +460,14 @@ def run_kani_group(prop_id, scratch, harnesses, features=None, cbmc_args=None, j
             res["status"] = "undecided"
             # typical: timeout or OOM
             m = re.search(r"(?:Thread \d+: )?.*?%s.*" % re.escape(h), text)
-            res["reason"] = "harness did not complete (status %s)" % r.get("status")
+            errs = len([c for c in checks if c.get("status") in ("Error", "ERROR", "Undetermined", "UNDETERMINED")])
+            why = "CBMC did not finish (timeout, or killed at the memory limit)" if (errs or not checks) else "status %s" % r.get("status")
+            m2 = re.search(r"CBMC failed with status (\d+)", text)
+            if m2:
+                why += "; CBMC exit status %s" % m2.group(1)
+            if "CBMC timed out" in text or "timed out" in text.lower():
+                why += "; timed out"
+            res["reason"] = "harness did not complete: %s (%d checks undetermined)" % (why, errs)
         results.append(res)
     return results, wall
 
@@ -468,8 +482,7 @@ def kani_playback(prop_id, scratch, harness, features=None, cbmc_args=None):
            "--concrete-playback=inplace", "--harness", fq(harness), "--exact"]
     if features:
         cmd += ["--features", ",".join(features)]
-    if cbmc_args:
-        cmd += ["--cbmc-args"] + cbmc_args
+    cmd += ["--cbmc-args"] + FIELD_SENS + list(cbmc_args or [])
     try:
         p = subprocess.run(cmd, cwd=scratch, env=env, stdout=subprocess.PIPE, stderr=subprocess.STDOUT, text=True, timeout=3600)
     except subprocess.TimeoutExpired:
@@ -572,6 +585,8 @@ def main(argv):
     if len(argv) < 2:
         print(__doc__)
         return 4
+    if argv[1] == "kh":
+        return kh_main(argv[2:])
     prop = argv[1]
     tier = os.environ.get("VERIF_TIER", "quick")
     replay = None
@@ -615,6 +630,71 @@ def main(argv):
             shutil.rmtree(scratch, ignore_errors=True)
             # stale crate artefacts of this scratch path in the shared dependency cache
             _prune_target(prop)
+
+
+def kh_main(args):
+    """developer tool: bin/check kh [--timeout S] [--mem GB] [--keep] HARNESS...  — run single harnesses (registry settings)"""
+    import registry, threading
+    tmo, mem, keep, names, utf8, extra_cbmc = None, None, False, [], None, []
+    i = 0
+    while i < len(args):
+        if args[i] == "--timeout":
+            tmo = int(args[i + 1]); i += 2
+        elif args[i] == "--mem":
+            mem = int(args[i + 1]); i += 2
+        elif args[i] == "--keep":
+            keep = True; i += 1
+        elif args[i] == "--utf8":
+            utf8 = int(args[i + 1]); i += 2
+        elif args[i] == "--cbmc":
+            extra_cbmc = args[i + 1].split(); i += 2
+        else:
+            names.append(args[i]); i += 1
+    specs = {}
+    for pid, sp in registry.PROPS.items():
+        for h in sp.get("kani", []):
+            specs.setdefault(h["name"], h)
+    hs = []
+    for n in names:
+        h = dict(specs.get(n) or dict(name=n))
+        if utf8 and "cbmc_args" not in h:
+            h["cbmc_args"] = registry.utf8set(utf8)
+        if extra_cbmc:
+            h["cbmc_args"] = tuple(h.get("cbmc_args", ())) + tuple(extra_cbmc)
+        if tmo:
+            h["timeout"] = tmo
+        if mem:
+            h["mem_gb"] = mem
+        hs.append(h)
+    scratch = make_scratch()
+    try:
+        inject(scratch)
+        groups = {}
+        for h in hs:
+            key = (tuple(h.get("features", ())), tuple(h.get("cbmc_args", ())), h.get("timeout", 1800), h.get("mem_gb", 12))
+            groups.setdefault(key, []).append(h)
+        out = {}
+
+        def w(idx, key, g):
+            feats, cargs, t, m = key
+            out[idx] = run_kani_group("KH", scratch, [h["name"] for h in g], features=list(feats) or None, cbmc_args=list(cargs) or None,
+                                      timeout_s=t, mem_gb=m, jobs=len(g), key="KH.%d" % idx)
+        ths = [threading.Thread(target=w, args=(i, k, g)) for i, (k, g) in enumerate(groups.items())]
+        [t.start() for t in ths]
+        [t.join() for t in ths]
+        for idx in sorted(out):
+            for r in out[idx][0]:
+                print("%-36s %-10s %7.1fs checks=%d covers=%s %s" % (r["harness"], r["status"], r["duration_s"], r["checks"], "%d/%d" % tuple(r["covers"]), r["reason"][:300]))
+                for f in r["failed"][:8]:
+                    print("      FAILED[%s] %s @ %s in %s" % (f["cls"], (f["description"] or "")[:120], f["location"], f["function"]))
+        return 0
+    finally:
+        if keep:
+            log("scratch kept at", scratch)
+        else:
+            shutil.rmtree(scratch, ignore_errors=True)
+        for t in glob.glob(os.path.join(CACHE, "kani-target", "KH.*")):
+            shutil.rmtree(t, ignore_errors=True)
 
 
 def _prune_dir(tdir):
